@@ -54,6 +54,13 @@ pub struct FileOpts {
     /// put the first shared label this file defines on the very first word of its first block
     #[serde(default)]
     pub pin_first: bool,
+    /// (block index, n): that block ends with a `.blkw n` of a size no hand-written test uses
+    /// (n*3 does not fit 16 bits, ...)
+    #[serde(default)]
+    pub huge: Option<(usize, u16)>,
+    /// the file starts with a comment line of this many characters (source positions >= 2^16)
+    #[serde(default)]
+    pub pad_comment: usize,
 }
 
 #[derive(Clone, Debug)]
@@ -235,6 +242,11 @@ pub fn gen_file(r: &mut Rng, o: &FileOpts) -> GenFile {
         if sts.is_empty() {
             sts.push(St { labels: vec![], k: K::FillConst(r.u16()) });
         }
+        if let Some((hb, hn)) = o.huge {
+            if hb == blocks.len() && room - hn as i64 >= 0 {
+                sts.push(St { labels: vec![format!("HUGE_{}", o.id)], k: K::Blkw(hn) });
+            }
+        }
         blocks.push((*orig, sts));
     }
     // shared labels defined by this file go on random statements
@@ -383,6 +395,10 @@ pub fn gen_file(r: &mut Rng, o: &FileOpts) -> GenFile {
     let see_label = |sp: &str, spelling: &mut BTreeMap<String, String>| {
         spelling.entry(sp.to_uppercase()).or_insert_with(|| sp.to_string());
     };
+    if o.pad_comment > 0 {
+        let c = format!("; {}", "-".repeat(o.pad_comment));
+        push_line(&mut text, &mut line_no, &c);
+    }
     if r.chance(1, 3) {
         let c = comment(r, o.exotic);
         push_line(&mut text, &mut line_no, &c);
